@@ -104,6 +104,24 @@ func certRun(args []string) error {
 	}); err != nil {
 		return err
 	}
+	// long chains (paths that depend on the NUMBER of certificates): 300 certificates, and 1100 with an OCSP response
+	// far down the chain (which makes the chain invalid)
+	{
+		long := make([]struct{ Ocsp, Sct int }, 300)
+		for i := range long {
+			long[i].Ocsp, long[i].Sct = -1, -1
+		}
+		long[0].Ocsp = 4
+		runPattern(long, "long")
+		longer := make([]struct{ Ocsp, Sct int }, 1100)
+		for i := range longer {
+			longer[i].Ocsp, longer[i].Sct = -1, -1
+		}
+		longer[0].Ocsp = 4
+		runPattern(longer, "long")
+		longer[1050].Ocsp = 3
+		runPattern(longer, "long")
+	}
 	sizes := []int{0, 1, 23, 24, 255, 256, 511, 512, 513, 4095, 4096, 4097}
 	if thorough {
 		sizes = append(sizes, 65535, 65536)
